@@ -11,20 +11,39 @@ package fdo
 //@   props C10(sweep)
 //@   sweep bounds,panic,make,nilmem,div
 
+// the nonce the owner must sign in TO0.OwnerSign is fresh per session: filled by the
+// system random source, stored for the session and returned unchanged (C06: no replay)
 //@ func fdo.TO0Server.helloAck
 //@   params s ctx msg
-//@   props C10(sweep)
+//@   local err = call:cbor.Decoder.Decode#1 | call:fdo.TO0SessionState.SetTO0SignNonce#1 | extract1:call:crypto/rand.Read#1
+//@   props C10(sweep) C06(functional)
 //@   sweep bounds,panic,make,nilmem,div
+//@   callsites SetTO0SignNonce 1
+//@   callassert SetTO0SignNonce#1: @fresh filledfrom(arg2) == SystemRandom()
+//@   ensures @same ? err == nil ==> filledfrom(result0.NonceTO0Sign) == SystemRandom()
 
+// device side of TO1 (C07): the redirect handed to the caller (and then verified in TO2
+// against the voucher's owner key) is the decoded response, untouched: re-encoding a
+// reordered or filtered address list no longer matches the owner's signature
 //@ func fdo.TO1
 //@   params ctx transport cred key opts
-//@   props C10(sweep)
+//@   local err = extract1:call:fdo.helloRv#1 | extract1:call:fdo.proveToRv#1 | extract1:call:fdo.signOptsFor#1
+//@   local nonce = extract0:call:fdo.helloRv#1
+//@   props C10(sweep) C07(functional)
 //@   sweep bounds,panic,make,nilmem,div
+//@   callsites proveToRv 1
+//@   callassert proveToRv#1: @args u(arg2) == u(cred) && u(arg3) == u(nonce)
+//@   ensures @asreceived ? err == nil ==> u(result0.Payload.Val) == asreceived(result0)
 
+// likewise the nonce the device must sign in TO1.ProveToRV (C07: no replayed proof)
 //@ func fdo.TO1Server.helloRVAck
 //@   params s ctx msg
-//@   props C10(sweep)
+//@   local err = call:cbor.Decoder.Decode#1 | call:fdo.TO1SessionState.SetTO1ProofNonce#1 | extract1:call:crypto/rand.Read#1 | extract2:call:fdo.RendezvousBlobPersistentState.RVBlob#1
+//@   props C10(sweep) C07(functional)
 //@   sweep bounds,panic,make,nilmem,div
+//@   callsites SetTO1ProofNonce 1
+//@   callassert SetTO1ProofNonce#1: @fresh filledfrom(arg2) == SystemRandom()
+//@   ensures @same ? err == nil ==> filledfrom(result0.NonceTO1Proof) == SystemRandom()
 
 //@ func fdo.TO2Server.ovNextEntry
 //@   params s ctx msg
@@ -162,8 +181,13 @@ package fdo
 
 //@ func fdo.proveToRv
 //@   params ctx transport cred nonce key opts
-//@   props C10(sweep)
+//@   local err = call:cbor.Decoder.Decode#1 | call:cbor.Decoder.Decode#2 | call:cose.Sign1.Sign#1 | extract2:call:fdo.Transport.Send#1
+//@   props C10(sweep) C07(functional)
 //@   sweep bounds,panic,make,nilmem,div
+//@   callsites Send 1
+//@   callassert Send#1: @msg32 arg2 == 32 && arg4 == nil
+//@   ensures @nonnil err == nil ==> result0 != nil
+//@   ghostpost asreceived(result0) := u(result0.Payload.Val)
 
 //@ func fdo.reuseCredentials
 //@   params ctx replacementOVH ownerPublicKey c
